@@ -106,7 +106,16 @@ Definition process_unconfirmed (n : node) (t : Z) (body : list Z) (rel trusted s
   | Some u =>   (* TxRepository.Add: already there -> not added; newly safe is notified *)
       let u1 := UTx (u_time u) (u_unsafe u) (u_safe u || safe) (u_trusted u || trusted) in
       let n := set_unconf n (<[t := u1]> (unconf n)) in
-      if safe && negb (u_safe u) then
+      if negb (zlen conflicts =? 0) then
+        (* markTxUnsafe(t): delivered earlier, no longer in the mempool (restart), conflict known now *)
+        let n := set_unconf n (<[t := UTx (u_time u1) true (u_safe u1) (u_trusted u1)]> (unconf n)) in
+        match states n !! t with
+        | None => (n, evs)
+        | Some s =>
+            let s1 := TState false true (s_cancel s) (s_depth s) (s_proof s) (s_outs s) in
+            (set_states n (<[t := s1]> (states n)), evs ++ [EUpdate t s1])
+        end
+      else if safe && negb (u_safe u) then
         match states n !! t with
         | None => (n, evs)
         | Some s =>
